@@ -46,6 +46,34 @@ impl SpawnCfg {
     }
 }
 
+/// A neutral re-configuration applied to *every* `spawn_probe` of an execution (scene setup and
+/// spawns made by actors while it runs): none of it may change what a property speaks about, so
+/// a family wrapped in [`crate::check::with_ambient`] re-checks its oracle on another code path.
+#[derive(Clone, Copy, Debug, Default, PartialEq, Eq)]
+pub struct Ambient {
+    /// a handler timeout far beyond every horizon (1000 ticks, carry on) where none is configured
+    pub generous_timeout: bool,
+    /// recreate-from-default where the default strategy is asked for
+    pub recreate: bool,
+    /// a bounded mailbox that never fills (16) where an unbounded one is asked for
+    pub roomy: bool,
+    /// attach a stream that is open and never ready (the other event loop); only for scenes
+    /// that never restart the actor
+    pub stream: bool,
+}
+
+thread_local! {
+    static AMBIENT: std::cell::Cell<Ambient> = const { std::cell::Cell::new(Ambient { generous_timeout: false, recreate: false, roomy: false, stream: false }) };
+}
+
+pub fn set_ambient(a: Ambient) {
+    AMBIENT.with(|c| c.set(a));
+}
+
+pub fn ambient() -> Ambient {
+    AMBIENT.with(|c| c.get())
+}
+
 /// Spawns a `Probe` through the public builder.
 pub fn spawn_probe(role: u8, cfg: SpawnCfg) -> OwningAddr<P> {
     spawn_probe_ordered(role, cfg, 0)
@@ -55,6 +83,28 @@ pub fn spawn_probe(role: u8, cfg: SpawnCfg) -> OwningAddr<P> {
 /// 0 = timeout, fail_on_timeout before the mailbox; 1 = fail_on_timeout, timeout before it;
 /// 2 = timeout, fail_on_timeout after it; 3 = fail_on_timeout, timeout after it.
 pub fn spawn_probe_ordered(role: u8, cfg: SpawnCfg, order: u8) -> OwningAddr<P> {
+    let amb = ambient();
+    let mut cfg = cfg;
+    if amb.generous_timeout && cfg.timeout.is_none() {
+        cfg.timeout = Some((1000, false));
+    }
+    if amb.recreate && cfg.strat == Strat::Default {
+        cfg.strat = Strat::Recreate;
+    }
+    if amb.roomy && cfg.mailbox == Mailbox::U {
+        cfg.mailbox = Mailbox::B(16);
+    }
+    if amb.stream {
+        let mut b = hannibal::build(Probe::<0>::new(role));
+        if let Some((t, fail)) = cfg.timeout {
+            b = b.timeout(Duration::from_millis(t as u64)).fail_on_timeout(fail);
+        }
+        let never = HStream::default();
+        return match cfg.mailbox {
+            Mailbox::U => b.on_stream(never).spawn_owning(),
+            Mailbox::B(n) => b.bounded_on_stream(n, never).spawn_owning(),
+        };
+    }
     let mut b = hannibal::build(Probe::<0>::new(role));
     if let Some((t, fail)) = cfg.timeout {
         let t = Duration::from_millis(t as u64);
